@@ -1005,6 +1005,10 @@ class C18Executor(Executor):
         self.__dict__.setdefault("_iter_state", []).append(st)
         try:
             spec = self.loop_spec(s)
+            if (spec is None or spec.inv is None) and isinstance(it, VSeq):
+                summary = self.search_loop(s, st, it)
+                if summary is not None:
+                    return summary
             if spec is None or spec.inv is None:
                 # a symbolic loop without an invariant is cut with `True` (everything it assigns is forgotten): an
                 # over-approximation, so a VC that fails afterwards is `unknown`, never a counterexample by itself
@@ -1021,6 +1025,103 @@ class C18Executor(Executor):
             self._iter_stack.pop()
             self._iter_state.pop()
 
+    def search_loop(self, s, st, it):
+        """A `for` over a symbolic sequence whose iterations change nothing unless they leave the loop (`for x in xs: if p(x):
+        return / break / raise`) needs no invariant: it is summarised exactly.  The body is run once at an arbitrary index i;
+        with stay(i) = the condition under which iteration i falls through (state untouched),
+          * leaving at i (return / raise / break) happens under  0 <= i < n  and  forall k < i. stay(k);
+          * the loop ends normally under  forall k < n. stay(k)  (then the `else` block runs).
+        Returns None (caller falls back to the havoc cut) when an iteration that stays has any effect, or when its condition
+        mentions a value created inside the body."""
+        view = self.seq_view(st, it)
+        if view is None or self._has_yield(s.body):
+            return None
+        n, elem = view
+        mark = int(fresh_name("search").rsplit("!", 1)[1])
+        i = z3.Int(fresh_name("i"))
+        probe = st.fork()
+        base_len = len(probe.pc)
+        probe.assume(z3.And(i >= 0, i < n))
+        targets = {x.id for x in _ast.walk(s.target) if isinstance(x, _ast.Name)}
+        n_obls = getattr(self, "_vc_count", 0)
+        starts = self.assign(s.target, elem(i), probe)
+        if len(starts) != 1:
+            return None
+        ref = starts[0]
+        snap_env = [dict(f.env) for f in ref.frames]
+        snap_heap, snap_ghost, snap_y, snap_pc = dict(ref.heap), dict(ref.ghost), len(ref.yielded), len(ref.pc)
+        outs = self.exec_block(s.body, ref.fork())
+        if getattr(self, "_vc_count", 0) != n_obls:
+            self.unsupported(s, "verification condition generated inside an invariant-less loop over a symbolic sequence")
+
+        def same(a, b):
+            if a is b:
+                return True
+            ta, tb = getattr(a, "t", None), getattr(b, "t", None)
+            return type(a) is type(b) and ta is not None and tb is not None and z3.is_expr(ta) and z3.is_expr(tb) and ta.eq(tb)
+
+        def untouched(o):
+            if len(o.st.frames) != len(snap_env) or o.st.yielded.__len__() != snap_y:
+                return False
+            for fr, env in zip(o.st.frames, snap_env):
+                if set(fr.env) - targets != set(env) - targets:
+                    return False
+                if any(not same(fr.env[k], env[k]) for k in env if k not in targets):
+                    return False
+            if set(o.st.heap) != set(snap_heap) or any(o.st.heap[r] is not snap_heap[r] for r in snap_heap):
+                return False
+            return set(o.st.ghost) == set(snap_ghost) and all(o.st.ghost[k] is snap_ghost[k] or o.st.ghost[k] == snap_ghost[k] for k in snap_ghost)
+
+        def local_consts(t, seen):
+            todo = [t]
+            while todo:
+                x = todo.pop()
+                if x.get_id() in seen:
+                    continue
+                seen.add(x.get_id())
+                if z3.is_quantifier(x):
+                    todo.append(x.body())
+                elif z3.is_app(x):
+                    if x.num_args() == 0 and x.decl().kind() == z3.Z3_OP_UNINTERPRETED and not x.eq(i):
+                        nm = x.decl().name()
+                        if "!" in nm and nm.rsplit("!", 1)[1].isdigit() and int(nm.rsplit("!", 1)[1]) > mark:
+                            return True
+                    todo.extend(x.children())
+            return False
+
+        stay, exits = [], []
+        for o in outs:
+            if o.kind in ("fall", "continue"):
+                try:
+                    ok = untouched(o)
+                except Exception:      # values without structural equality
+                    ok = False
+                delta = o.st.pc[snap_pc:]
+                if not ok or any(local_consts(d, set()) for d in delta):
+                    return None
+                stay.append(z3.And(delta) if delta else z3.BoolVal(True))
+            elif o.kind in ("return", "raise", "break"):
+                exits.append(o)
+            else:
+                return None
+        stay_i = z3.simplify(z3.Or(stay)) if stay else z3.BoolVal(False)
+        k = z3.Int(fresh_name("k"))
+        stay_k = z3.substitute(stay_i, (i, k))
+        res = []
+        for o in exits:
+            if not z3.is_true(stay_i):
+                o.st.assume(z3.ForAll([k], z3.Implies(z3.And(k >= 0, k < i), stay_k)))
+            res.append(Outcome("fall", o.st) if o.kind == "break" else o)
+        if not z3.is_false(stay_i):
+            done = st
+            if not z3.is_true(stay_i):
+                done.assume(z3.ForAll([k], z3.Implies(z3.And(k >= 0, k < n), stay_k)))
+            if s.orelse:
+                res.extend(self.exec_block(s.orelse, done))
+            else:
+                res.append(Outcome("fall", done))
+        return res
+
     def _exec_stmt(self, s, st):
         # a Python exception inside the engine / the pack's models on an unforeseen code shape is a gap of the model, not a
         # fact about the code: the function leaves the verifiable subset (obligations `unknown`, native replayer decides)
@@ -1032,6 +1133,7 @@ class C18Executor(Executor):
             raise ops.Unsupported(f"{self.loc(s)} model does not cover this shape: {type(e).__name__}: {e} @ {where.name}:{where.lineno}")
 
     def add_vc(self, kind, label, pc, goal, note="", loc=""):
+        self._vc_count = getattr(self, "_vc_count", 0) + 1
         g = goal.t if isinstance(goal, VBool) else (z3.BoolVal(goal) if isinstance(goal, bool) else goal)
         pc = list(pc)
         super().add_vc(kind, label, pc + unfold_instances(pc + [g]), g, note, loc)
